@@ -82,6 +82,49 @@ pub mod vharness {
         }
     }
 
+    /// whether the pieces of main() run by the harness are the working tree's own lines (cut out at build time)
+    pub fn main_pieces_extracted() -> bool {
+        cfg!(vh_extracted)
+    }
+
+    /// The server's start-up decision on a data directory (strict recovery, no fresh start after a failed recovery):
+    /// main()'s own lines when the build could cut them out, else the hand copy. Used by C13's server rows.
+    #[allow(clippy::too_many_arguments)]
+    pub fn start_engine_like_main(dim: usize, metric: u8, capacity: usize, fsync: FsyncPolicy, snapshot_interval: usize, max_wal: u64, hot_soft: usize, hot_hard: usize, cache_cap: usize, data_dir: &str) -> anyhow::Result<TieredEngine> {
+        let engine_config = TieredEngineConfig {
+            hot_tier_max_size: hot_soft,
+            hot_tier_hard_limit: hot_hard,
+            hnsw_max_elements: capacity,
+            embedding_dimension: dim,
+            hnsw_distance: metric_of(metric),
+            data_dir: Some(data_dir.to_string()),
+            fsync_policy: fsync,
+            snapshot_interval,
+            max_wal_size_bytes: max_wal,
+            ..TieredEngineConfig::default()
+        };
+        let mut app_config = kyrodb_engine::config::KyroDbConfig::default();
+        app_config.hnsw.dimension = dim;
+        app_config.hnsw.distance = metric_of(metric);
+        app_config.persistence.data_dir = std::path::PathBuf::from(data_dir);
+        app_config.persistence.enable_recovery = true;
+        app_config.persistence.allow_fresh_start_on_recovery_failure = false;
+        let strategy: Box<dyn kyrodb_engine::CacheStrategy> = Box::new(LruCacheStrategy::new(cache_cap));
+        let query_cache = Arc::new(kyrodb_engine::QueryHashCache::new(cache_cap.max(1), 1.0));
+        #[cfg(vh_extracted)]
+        {
+            vh_x_start_engine(&app_config, &engine_config, strategy, query_cache, &move || Ok((Box::new(LruCacheStrategy::new(cache_cap)) as Box<dyn kyrodb_engine::CacheStrategy>, None, "lru")))
+        }
+        #[cfg(not(vh_extracted))]
+        {
+            if Path::new(data_dir).join("MANIFEST").exists() {
+                TieredEngine::recover(strategy, query_cache, data_dir, engine_config.clone())
+            } else {
+                TieredEngine::new(strategy, query_cache, Vec::new(), Vec::new(), engine_config.clone())
+            }
+        }
+    }
+
     impl Harness {
         /// Start-up: recover when a MANIFEST exists (copied decision), else fresh; then the copied wiring.
         pub fn start(cfg: &ServerCfg) -> anyhow::Result<Harness> {
@@ -99,15 +142,6 @@ pub mod vharness {
             };
             let strategy: Box<dyn kyrodb_engine::CacheStrategy> = Box::new(LruCacheStrategy::new(cfg.cache_cap));
             let query_cache = Arc::new(kyrodb_engine::QueryHashCache::new(cfg.qc_cap.max(1), cfg.qc_threshold));
-            // --- copied from main(): recover-or-fresh decision
-            let should_attempt_recovery = cfg.data_dir.as_ref().map(|d| Path::new(d).join("MANIFEST").exists()).unwrap_or(false);
-            let engine = if should_attempt_recovery {
-                TieredEngine::recover(strategy, query_cache, cfg.data_dir.as_ref().unwrap().as_str(), engine_config.clone())?
-            } else {
-                TieredEngine::new(strategy, query_cache, Vec::new(), Vec::new(), engine_config.clone())?
-            };
-            let engine_arc = Arc::new(engine);
-
             let mut app_config = kyrodb_engine::config::KyroDbConfig::default();
             app_config.auth.enabled = cfg.auth;
             app_config.rate_limit.enabled = cfg.rate_limit;
@@ -117,6 +151,27 @@ pub mod vharness {
             if let Some(d) = &cfg.data_dir {
                 app_config.persistence.data_dir = std::path::PathBuf::from(d);
             }
+            app_config.persistence.enable_recovery = true;
+            app_config.persistence.allow_fresh_start_on_recovery_failure = false;
+            // --- the recover-or-fresh start of the engine: the lines of main() themselves when the build could cut
+            // them out (cfg vh_extracted), otherwise the hand copy below
+            #[cfg(vh_extracted)]
+            let engine = if cfg.data_dir.is_some() {
+                let cap = cfg.cache_cap;
+                vh_x_start_engine(&app_config, &engine_config, strategy, query_cache, &move || Ok((Box::new(LruCacheStrategy::new(cap)) as Box<dyn kyrodb_engine::CacheStrategy>, None, "lru")))?
+            } else {
+                TieredEngine::new(strategy, query_cache, Vec::new(), Vec::new(), engine_config.clone())?
+            };
+            #[cfg(not(vh_extracted))]
+            let engine = {
+                let should_attempt_recovery = cfg.data_dir.as_ref().map(|d| Path::new(d).join("MANIFEST").exists()).unwrap_or(false);
+                if should_attempt_recovery {
+                    TieredEngine::recover(strategy, query_cache, cfg.data_dir.as_ref().unwrap().as_str(), engine_config.clone())?
+                } else {
+                    TieredEngine::new(strategy, query_cache, Vec::new(), Vec::new(), engine_config.clone())?
+                }
+            };
+            let engine_arc = Arc::new(engine);
 
             let auth = if cfg.auth {
                 let a = AuthManager::new();
@@ -145,7 +200,10 @@ pub mod vharness {
             } else {
                 None
             };
-            // --- copied from main(): start-up recount of per-tenant vectors
+            // --- start-up recount of per-tenant vectors: main()'s own lines when cut out by the build, else the copy
+            #[cfg(vh_extracted)]
+            let tenant_vector_counts = vh_x_recount(&app_config, &auth, &tenant_id_mapper, &engine_arc)?;
+            #[cfg(not(vh_extracted))]
             let tenant_vector_counts = if cfg.auth {
                 let mut counts: HashMap<String, usize> = HashMap::new();
                 if let (Some(auth_mgr), Some(mapper)) = (&auth, &tenant_id_mapper) {
@@ -205,9 +263,12 @@ pub mod vharness {
                 framed.extend_from_slice(m);
             }
             let grpc_service = KyroDBServiceImpl { state: self.state.clone() };
-            // --- copied from main(): the auth interceptor closure
+            // --- the auth interceptor closure: main()'s own lines when cut out by the build, else the copy
             let auth_enabled = self.state.app_config.auth.enabled;
             let state_for_interceptor = self.state.clone();
+            #[cfg(vh_extracted)]
+            let service = KyroDbServiceServer::with_interceptor(grpc_service, move |req: Request<()>| vh_x_interceptor(auth_enabled, &state_for_interceptor, req));
+            #[cfg(not(vh_extracted))]
             let service = KyroDbServiceServer::with_interceptor(grpc_service, move |mut req: Request<()>| {
                 if !auth_enabled {
                     return Ok(req);
